@@ -182,6 +182,11 @@ def run(F, res, tier):
     line_map_coordinates_agree(F, res)
     disk_text_never_replaces_a_known_file(F, res)
     closing_hands_the_document_back_to_the_disk(F, res)
+    # valid LSP positions become the offsets the client means: the width table and the scans over it (C14/U1, U3), client positions
+    # enter through from_pos only (C14/U5)
+    from rules import c14 as _c14
+    _c14.width_table(F, res, rule="D14")
+    _c14.scans(F, res, rule="D14")
 
 
 def store_changes_reach_the_analysis(F, res, rule="D6"):
